@@ -3,7 +3,11 @@
 A case (also the input line of `lean/Drivers/RingBuffer.lean`):
 
     {"cap": n, "period": µs, "align": µs, "container": "list"|"numpy", "init": [rat,…],
-     "ops": [{"ts": µs, "v": rat|null, "nan": bool}, …], "q": [query, …], "pickle": bool}
+     "ops": [{"ts": µs, "v": rat|null, "nan": bool}, …], "q": [query, …], "pickle": bool,
+     "tz": null | IANA zone | "+HH:MM",          (the tzinfo every datetime handed to the real code carries; the instants —
+                                                   all this file and the model talk about — are the same)
+     "reload": [[k, "pickle"|"deepcopy"], …]}     (before the k-th update — k = 0: before the first, k = len: after the last —
+                                                   the buffer is dumped and loaded / deep-copied and the copy goes on)
 
 All timestamps are integer microseconds since the UNIX epoch (exact as `datetime`); values are small
 integers (exact as floats).  The container is pre-filled with the negative numbers `init`, which are never
@@ -40,10 +44,26 @@ def _imports():
     return np, Broadcast, Quantity, UNIX_EPOCH, MovingWindow, Sample, OrderedRingBuffer, serialization
 
 
-def to_dt(us: int) -> datetime:
+def tzinfo_of(name: str | None):
+    """`None` -> UTC; "+05:30" / "-03:00" -> a fixed offset; anything else -> `ZoneInfo(name)` (may observe DST)."""
+    from datetime import timezone
+
+    if name is None:
+        return timezone.utc
+    if name[0] in "+-":
+        hh, mm = name[1:].split(":")
+        return timezone((1 if name[0] == "+" else -1) * timedelta(hours=int(hh), minutes=int(mm)))
+    from zoneinfo import ZoneInfo
+
+    return ZoneInfo(name)
+
+
+def to_dt(us: int, tz: str | None = None) -> datetime:
+    """The instant `us` µs after the epoch, as an aware datetime in the given zone (same instant, other wall clock)."""
     from frequenz.sdk.timeseries import UNIX_EPOCH
 
-    return UNIX_EPOCH + timedelta(microseconds=us)
+    dt = UNIX_EPOCH + timedelta(microseconds=us)
+    return dt if tz is None else dt.astimezone(tzinfo_of(tz))
 
 
 def to_us(dt: datetime | None) -> int | None:
@@ -81,6 +101,7 @@ class Real:
     def __init__(self, case: dict):
         np, Broadcast, Quantity, _E, MovingWindow, Sample, ORB, ser = _imports()
         self.np, self.Quantity, self.Sample, self.ser = np, Quantity, Sample, ser
+        self.tz = case.get("tz")
         init = [float(Fraction(x)) for x in case["init"]]
         container = np.array(init, dtype=float) if case["container"] == "numpy" else list(init)
         period = timedelta(microseconds=case["period"])
@@ -103,7 +124,7 @@ class Real:
         else:
             value = self.Quantity(float(Fraction(op["v"])))
         try:
-            self.rb.update(self.Sample(to_dt(op["ts"]), value))
+            self.rb.update(self.Sample(to_dt(op["ts"], self.tz), value))
             return False
         except IndexError:
             return True
@@ -123,8 +144,13 @@ class Real:
                 "cv": safe(lambda: int(rb.count_valid())), "cc": safe(lambda: int(rb.count_covered())),
                 "old": safe(lambda: to_us(rb.oldest_timestamp)), "new": safe(lambda: to_us(rb.newest_timestamp))}
 
-    def roundtrip(self) -> None:
-        """`serialization.dump` + `load` (pickle), then go on with the loaded instance."""
+    def roundtrip(self, how: str = "pickle") -> None:
+        """`serialization.dump` + `load` (pickle) or `copy.deepcopy`, then go on with the new instance."""
+        if how == "deepcopy":
+            import copy
+
+            self.rb = copy.deepcopy(self.rb)
+            return
         fd, path = tempfile.mkstemp(prefix="c09-", suffix=".pkl")
         os.close(fd)
         try:
@@ -139,7 +165,7 @@ class Real:
         k = q["k"]
         self.mw._buffer = self.rb  # pylint: disable=protected-access
         if k in ("widx", "wts"):
-            a, b = (q["i"], q["j"]) if k == "widx" else (to_dt(q["a"]), to_dt(q["b"]))
+            a, b = (q["i"], q["j"]) if k == "widx" else (to_dt(q["a"], self.tz), to_dt(q["b"], self.tz))
             fill = fill_arg(q.get("fill"), bool(q.get("fi")))
             kw = {"fill_value": fill}
             if "fc" in q:
@@ -164,7 +190,7 @@ class Real:
                 if via != res:
                     note = f"MovingWindow[a:b]={via} but buffer.window={res} for {q}"
             return res, note
-        key = q["i"] if k == "ati" else to_dt(q["t"])
+        key = q["i"] if k == "ati" else to_dt(q["t"], self.tz)
         outs = []
         for f in (self.mw.at, self.mw.__getitem__):
             try:
@@ -181,8 +207,15 @@ class Real:
 def run_impl(case: dict) -> tuple[dict, list[str]]:
     r = Real(case)
     steps, notes = [], []
-    for op in case["ops"]:
+    reload_at: dict[int, list[str]] = {}
+    for k, how in case.get("reload", []):
+        reload_at.setdefault(k, []).append(how)
+    for i, op in enumerate(case["ops"]):
+        for how in reload_at.get(i, []):
+            r.roundtrip(how)
         steps.append(r.observe(r.update(op)))
+    for how in reload_at.get(len(case["ops"]), []):
+        r.roundtrip(how)
     if case.get("pickle"):
         r.roundtrip()
         after = r.observe(steps[-1]["rej"]) if steps else None
@@ -376,6 +409,11 @@ def check_case(case: dict, out: dict, notes: list[str]) -> list[tuple[str, Any, 
 PERIODS = [1_000_000, 200_000, 100_000, 2, 10, 300_000_000, 1_000, 7_000_000]   # even numbers of µs
 ODD_PERIODS = [3, 5, 7, 1_000_001]
 ALIGNS = [0, 137, -250_000, 946_684_800_000_000]  # epoch, off-grid, before epoch, 2000-01-01
+# non-UTC zones for the datetimes handed to the real code: two that observe DST, fixed offsets (incl. a half-hour one)
+ZONES = ["Europe/Berlin", "America/New_York", "+05:30", "-03:00", "Australia/Lord_Howe"]
+# instants of DST switches (UTC µs): Berlin 2023-03-26 01:00 / 2023-10-29 01:00, New York 2023-03-12 07:00 / 2023-11-05 06:00
+DST_SWITCHES = [1_679_792_400_000_000, 1_698_541_200_000_000, 1_678_604_400_000_000, 1_699_164_000_000_000]
+DST_PERIODS = [900_000_000, 1_800_000_000, 3_600_000_000]   # 15 min, 30 min, 1 h: a few slots span the switch
 
 
 def init_for(cap: int) -> list[str]:
@@ -514,15 +552,31 @@ def gen_case(rng: random.Random, odd_period: bool = False) -> dict:
     cap = rng.choice([1, 2, 3, 3, 4, 5, 6])
     period = rng.choice(ODD_PERIODS if odd_period else PERIODS)
     align = rng.choice(ALIGNS)
+    # a quarter of the cases: datetimes in a non-UTC zone, half of those with the window around a DST switch
+    tz = rng.choice(ZONES) if (not odd_period and rng.random() < 0.25) else None
+    around_switch = tz is not None and rng.random() < 0.6
+    if around_switch:
+        period = rng.choice(DST_PERIODS)
+        align = rng.choice([0, 946_684_800_000_000])
     # keep slot numbers small enough for the float index computation of the real code (see module doc)
     span = MAX_INDEX * period
     base_ts = rng.choice([0, 1_700_000_000_000_000, align])
+    if around_switch:
+        base_ts = rng.choice(DST_SWITCHES) + rng.randint(-cap, 1) * period
     if abs(base_ts - align) > span:
         base_ts = align + rng.randint(-1000, 1000) * period
     base_slot = (base_ts - align) // period
     case = {"cap": cap, "period": period, "align": align, "container": rng.choice(["list", "numpy"]),
             "init": init_for(cap), "ops": gen_ops(rng, cap, period, align, rng.randint(1, 25), base_slot),
             "pickle": rng.random() < 0.08}
+    if tz is not None:
+        case["tz"] = tz
+    if rng.random() < 0.2:
+        # the buffer is dumped / loaded or deep-copied at a few points of the history (half of the time incl. k = 0:
+        # a buffer that has never been updated) and must go on exactly like the original
+        ks = sorted({0} if rng.random() < 0.5 else set()) + sorted(rng.sample(range(len(case["ops"]) + 1),
+                                                                               min(2, len(case["ops"]) + 1)))
+        case["reload"] = [[k, rng.choice(["pickle", "deepcopy"])] for k in sorted(set(ks))]
     case["q"] = gen_queries(rng, case, rich=False) + span_queries(case, rng)
     return case
 
